@@ -789,6 +789,7 @@ fn stats_inc_sole() {
 }
 
 fn run<F: Flavour>(sc: &InjSc, stats: &mut Stats) -> Option<Violation> {
+    crate::keys::set_style(crate::keys::style_from(sc.hash_seed));
     hashseam::set_seed(sc.hash_seed);
     let solo = Solo::new();
     if F::SYNC {
@@ -873,6 +874,7 @@ fn gen_host_spec(rng: &mut Rng, directed: bool, n: usize) -> SearchSpec {
         transpose: directed && rng.chance(1, 4),
         closure,
         mask: if closure == Closure::Filter && rng.coin() { (rng.next_u64() & rng.next_u64() & 0xffff) as u16 } else { 0 },
+        query: false,
     }
 }
 
